@@ -310,6 +310,15 @@ let () = reg "transpose64" (fun args ->
   let r = transpose64 m in
   Stdlib.String.concat " " (List.map (fun w -> let h = hex_of_n w in Stdlib.String.make (16 - Stdlib.String.length h) '0' ^ h) r))
 
+(* ---------------- biased_randomize_bits without truncation leftover (CoinWord.v) ---------------- *)
+(* brbexact top inverted n w0 w1 ... (raw generator words, hex) -> the n words written *)
+let () = reg "brbexact" (fun args ->
+  match args with
+  | top :: inv :: n :: ws ->
+    let r = brb_exact (nat_i top) (inv = "1") (nat_i n) (List.map n_of_hex ws) in
+    Stdlib.String.concat " " (List.map (fun w -> let h = hex_of_n w in Stdlib.String.make (16 - Stdlib.String.length h) '0' ^ h) r)
+  | _ -> "BAD")
+
 let () =
   (try
      while true do
